@@ -542,9 +542,62 @@ func CheckC15(env *core.Env, rep *core.Report) *core.Result {
 			}
 		}
 	}
+	// large valid documents: loading time is bounded by the size of the configuration, not by the number
+	// of paths through it. A layered pipeline (18 layers of 3 stages, every stage depending on the whole
+	// layer before it: 3^17 paths) declared last layer first and first layer first; a chain of 300 stages;
+	// 300 tasks
+	{
+		layered := func(rev bool) string {
+			var b strings.Builder
+			b.WriteString("tasks:\n  t:\n    command: [\"true\"]\npipelines:\n  p:\n")
+			const layers = 18
+			for k := 0; k < layers; k++ {
+				l := k
+				if rev {
+					l = layers - 1 - k
+				}
+				for j := 0; j < 3; j++ {
+					fmt.Fprintf(&b, "    - name: l%d_%d\n      task: t\n", l, j)
+					if l > 0 {
+						fmt.Fprintf(&b, "      depends_on: [l%d_0, l%d_1, l%d_2]\n", l-1, l-1, l-1)
+					}
+				}
+			}
+			return b.String()
+		}
+		var chain, many strings.Builder
+		chain.WriteString("tasks:\n  t:\n    command: [\"true\"]\npipelines:\n  p:\n")
+		for k := 299; k >= 0; k-- {
+			fmt.Fprintf(&chain, "    - name: c%d\n      task: t\n", k)
+			if k > 0 {
+				fmt.Fprintf(&chain, "      depends_on: [c%d]\n", k-1)
+			}
+		}
+		many.WriteString("tasks:\n")
+		for k := 0; k < 300; k++ {
+			fmt.Fprintf(&many, "  t%d:\n    command: [\"true\"]\n    env: {A: \"%d\"}\n", k, k)
+		}
+		many.WriteString("pipelines:\n  p:\n    - task: t0\n")
+		for k, doc := range []string{layered(true), layered(false), chain.String(), many.String()} {
+			dd := env.Sub("big")
+			_ = ioutil.WriteFile(filepath.Join(dd, "tasks.yaml"), []byte(doc), 0o644)
+			for _, args := range [][]string{{"list"}, {"validate", "tasks.yaml"}, {"graph", "p"}} {
+				res := e.run(dd, "", 20*time.Second, args...)
+				atomic.AddInt64(&byteRuns, 1)
+				what := fmt.Sprintf("a large valid configuration (%s): taskctl %s", []string{"18 layers of 3 stages, dependents declared first", "18 layers of 3 stages", "a chain of 300 stages", "300 tasks"}[k], strings.Join(args, " "))
+				if !judge(fmt.Sprintf("large-valid-document:%d", k), res, what, map[string]interface{}{"stderr": tailS(res.Stderr, 600)}) {
+					break
+				}
+				if res.Exit != 0 {
+					rep.Add(core.Finding{Prop: "C15", Key: fmt.Sprintf("C15:large-valid-document-rejected:%d", k), What: what + fmt.Sprintf(": exit %d: %s", res.Exit, lastLine(res.Stderr)), Detail: map[string]interface{}{"stderr": tailS(res.Stderr, 600)}})
+					break
+				}
+			}
+		}
+	}
 	e.samples.Add(map[string]interface{}{"kind": "envfile", "lines": []string{"kv", "blank", "nokv"}, "predicted": "Rejected"})
 	return e.result("exploration", int(runs), distinct.N(),
-		"structural: every (position, shape) pair of Shapes.tla - positions = top-level keys, the four sections, one entry of each, every documented field of an entry; shapes = null, int, string, empty string, bool, list, map, list of maps, nested list, deleted, duplicated, unknown key - applied to a base document that uses every documented key, serialised to YAML (all) and JSON/TOML (quick 1/3, thorough all; shapes a format cannot express are skipped and counted) and given to list, show, graph, validate; env_file: line sequences of length <=3 over 12 line classes plus a missing file (quick: all of length <=2 and 1/8 of length 3), predicted accept/reject; byte level: truncation at every 1/16, invalid UTF-8 at three offsets, empty / NUL / deeply nested input, YAML anchors, merge keys and alias expansion. distinct_nontrivial = distinct (position, shape, format) and env_file cases executed",
+		"structural: every (position, shape) pair of Shapes.tla - positions = top-level keys, the four sections, one entry of each, every documented field of an entry; shapes = null, int, string, empty string, bool, list, map, list of maps, nested list, deleted, duplicated, unknown key - applied to a base document that uses every documented key, serialised to YAML (all) and JSON/TOML (quick 1/3, thorough all; shapes a format cannot express are skipped and counted) and given to list, show, graph, validate; env_file: line sequences of length <=3 over 12 line classes plus a missing file (quick: all of length <=2 and 1/8 of length 3), predicted accept/reject; byte level: truncation at every 1/16, invalid UTF-8 at three offsets, empty / NUL / deeply nested input, YAML anchors, merge keys and alias expansion; four large valid documents (a layered pipeline with 3^17 paths in both declaration orders, a chain of 300 stages, 300 tasks) that must load, validate and draw within 20 s. distinct_nontrivial = distinct (position, shape, format) and env_file cases executed",
 		map[string]interface{}{"cases_in_model": len(cases), "skipped_not_expressible": skipped, "byte_level_runs": byteRuns},
 		[]string{"'for all byte strings' is addressed structurally plus a fixed set of byte-level perturbations; no claim of coverage of arbitrary bytes",
 			"oracle: exit status 0 or 1, no panic / fatal error / goroutine dump, bounded time (8-10 s); accept/reject predicted only for unknown keys and env_file lines"})
